@@ -142,7 +142,9 @@ def classify_k4(mode, ref, got):
                 # (b) both captured: the merged layer is built by dict.update in an order that lets the copy of an
                 # ENCLOSING loop overwrite a same-named binding made between the tag and the fill, and in isolated
                 # mode it is inserted below the layers of the loops it copies
-                elif exp is not None and oc and ec and obs[0] == "for" and obs != exp:
+                # (narrowed after seeded change C01f: a loop BETWEEN tag and fill is copied after the enclosing loops and wins
+                # over them in django mode - there only a between-`with` is overwritten)
+                elif exp is not None and oc and ec and obs[0] == "for" and obs != exp and (exp[0] != "for" or recd.get("lexical")):
                     k4 = True
             # the captured layer also lands below the alias layer of an ENCLOSING fill that is still being rendered: a
             # slot-data alias of that fill, named like the variable, shows through instead of the nearer captured binding
@@ -300,7 +302,17 @@ def add_between_collision(prog, rng):
     site = 9000 + rng.randrange(900)
     prog["page_ctx"][f"L{site}"] = [f"L{site}.{var}#0", f"L{site}.{var}#1"][: rng.choice([1, 2])]
     fill = ["fill", ["lit", rng.choice(names)], [["var", var]], None, None]
-    prog["page"].append(["comp", cname, {}, ["fills", [["for", var, ["var", f"L{site}"], site, [fill]]]]])
+    node = ["comp", cname, {}, ["fills", [["for", var, ["var", f"L{site}"], site, [fill]]]]]
+    if rng.random() < 0.5:
+        # ... and the component tag itself sits in a loop over the SAME name (or another one): inside the fill the loop
+        # between tag and fill is the nearer binding
+        var2 = var if rng.random() < 0.7 else rng.choice(pg.VAR_NAMES)
+        site2 = site + 1000
+        prog["page_ctx"][f"L{site2}"] = [f"L{site2}.{var2}#0", f"L{site2}.{var2}#1"][: rng.choice([1, 2])]
+        if var2 != var:
+            fill[2].append(["var", var2])
+        node = ["for", var2, ["var", f"L{site2}"], site2, [node]]
+    prog["page"].append(node)
 
 
 def gen(rng):
